@@ -41,7 +41,7 @@ func loadEnv() []string {
 		}
 		out = append(out, e)
 	}
-	return append(out, "GOFLAGS=-mod=mod", "GOPROXY=off", "GOSUMDB=off", "GOTOOLCHAIN=local", "GOWORK=off")
+	return append(out, "GOFLAGS=-mod=readonly", "GOPROXY=off", "GOSUMDB=off", "GOTOOLCHAIN=local", "GOWORK=off")
 }
 
 // Load type-checks ./... of the repository. overlay maps absolute file names to replacement contents.
